@@ -39,8 +39,9 @@ import math
 import numpy as np
 from hypothesis import strategies as st
 
-from ..common import (DIFF, Outcome, Violation, arr_close, arr_equal_exact,
-                      exc_violation, guarded, snapshot, snapshot_diff)
+from ..common import (DIFF, CallTimeout, Outcome, Violation, arr_close,
+                      arr_equal_exact, exc_violation, guarded, snapshot,
+                      snapshot_diff)
 
 PROPERTY_ID = "C13"
 TECHNIQUE = ("Hypothesis-generated operation sequences (fit / partial_fit / "
@@ -88,6 +89,11 @@ ASSUMPTIONS = [
     "(C10 finding for larger chunks)",
     "pool utilities are compared on the first batch row only (later rows "
     "depend on the tie-break of the earlier picks)",
+    "an exception of fit / partial_fit / pool query is a C13 violation only "
+    "if a fresh clone accepts the very same single call (history "
+    "dependence); if the fresh clone raises the same exception type the "
+    "case is labelled rejected_by_fresh_object_too and ends (e.g. sklearn's "
+    "mixture model refusing collapsed data) - other properties own that",
     "an estimator object passed as a parameter is compared through its "
     "complete __dict__: fitting the caller's estimator in place counts as "
     "a change of what get_params reports",
@@ -632,9 +638,13 @@ def _estimator_case(draw):
     K = draw(st.sampled_from([2, 2, 3]))
     d = draw(st.sampled_from([1, 2, 2]))
     classes_given = comp["cfg"].get("classes_given", True)
-    need_label = (not classes_given) or draw(st.integers(0, 7)) > 0
     dss = draw(_datasets(d, task, K, annotators=2 if kind in _MULTI else 0,
-                         need_label=need_label))
+                         need_label=True))
+    if classes_given and draw(st.integers(0, 7)) == 0:
+        # cold start: one data set without any label
+        ds = dss[draw(st.integers(0, len(dss) - 1))]
+        ds["y"] = [([NAN] * len(r) if isinstance(r, list) else NAN)
+                   for r in ds["y"]]
     probe = draw(_probe(dss, d))
     nds = len(dss)
     pf = _offers_partial_fit(comp)
@@ -674,13 +684,22 @@ def _estimator_case(draw):
             "datasets": dss, "probe": probe, "weights": weights, "ops": ops}
 
 
+def _stream_pool(shard, nshards):
+    """(kind, name) pairs of this shard: the 20 stream components are dealt
+    round robin so that every one of them is exercised in every run."""
+    allc = ([("strategy", n) for n in sorted(_QS)]
+            + [("manager", n) for n in sorted(_BM)])
+    if nshards <= 1:
+        return allc
+    sel = [c for i, c in enumerate(allc) if i % nshards == shard % nshards]
+    return sel or allc
+
+
 @st.composite
-def _stream_case(draw):
-    kind = draw(st.sampled_from(["strategy", "strategy", "manager"]))
+def _stream_case(draw, pool=None):
+    pool = pool or _stream_pool(0, 1)
+    kind, name = draw(st.sampled_from(pool))
     table = _QS if kind == "strategy" else _BM
-    name = draw(st.sampled_from(sorted(table)
-                                + (["StreamProbabilisticAL"] * 3
-                                   if kind == "strategy" else [])))
     variant = draw(st.integers(0, len(table[name]) - 1))
     comp = {"kind": kind, "name": name, "variant": variant,
             "seed": draw(st.integers(0, 9))}
@@ -748,9 +767,10 @@ def _pool_case(draw):
 
 
 def case_strategy(tier, shard=0, nshards=1):
+    stream = _stream_case(pool=_stream_pool(shard, nshards))
     return st.one_of(_estimator_case(), _estimator_case(),
                      _estimator_case(), _estimator_case(),
-                     _stream_case(), _pool_case())
+                     stream, stream, _pool_case())
 
 
 # ======================================================================
@@ -974,8 +994,18 @@ def _run_estimator(case):
             t = trig
             if (is_swc and wmode == "mixed" and name == "partial_fit"
                     and use_w and not consistent_w):
-                t = f"{cfg_tag}&weighted_partial_fit_after_unweighted_call"
-            add(exc_violation(label, r, t, f"op {idx} {name}"))
+                t = "weights=mixed&weighted_partial_fit_after_unweighted_call"
+            # C13 is about the HISTORY: the same single call on a fresh
+            # clone decides whether the exception is caused by earlier calls
+            okc, ref = guarded(clone, pristine)
+            ok2, r2 = _train_call(ref, name, X, y, w)
+            if not ok2 and type(r2) is type(r) and not isinstance(
+                    r, CallTimeout):
+                labels.append("rejected_by_fresh_object_too:"
+                              f"{type(r).__name__}")
+            else:
+                add(exc_violation(label, r, t, f"op {idx} {name} (a fresh "
+                                  f"clone accepts the same call)"))
             break
         n_fit += 1
         fitted = True
@@ -984,10 +1014,33 @@ def _run_estimator(case):
         watch.check(trig, f"op {idx} {name}", tmp)
         flush(tmp)
 
+        if name == "fit":
+            segment = [(name, X, y, w)]
+            last_fit_ds = op["ds"]
+        else:
+            segment.append((name, X, y, w))
+
         ok, mine = _predictions(obj, case, P)
         if not ok:
-            add(exc_violation(label, mine[1], trig,
-                              f"{mine[0]} after op {idx} {name}"))
+            # history dependent only if a fresh clone that replays the calls
+            # since the last fit can predict
+            okc, ref = guarded(clone, pristine)
+            ok2 = okc
+            for (k2, X2, y2, w2) in segment:
+                if ok2:
+                    ok2, _r = _train_call(ref, k2, X2, y2, w2)
+            theirs = None
+            if ok2:
+                ok2, theirs = _predictions(ref, case, P)
+            if (theirs is not None and not ok2
+                    and type(theirs[1]) is type(mine[1])
+                    and not isinstance(mine[1], CallTimeout)):
+                labels.append("rejected_by_fresh_object_too:"
+                              f"{type(mine[1]).__name__}")
+            else:
+                add(exc_violation(label, mine[1], trig,
+                                  f"{mine[0]} after op {idx} {name} (fresh "
+                                  f"clone: {'ok' if ok2 else 'other error'})"))
             break
         tmp = []
         watch.check(f"{cfg_tag}&predict_after_{optag}",
@@ -995,11 +1048,6 @@ def _run_estimator(case):
         flush(tmp)
 
         # ---- (2)/(3) fresh clone, replaying the calls since last fit --
-        if name == "fit":
-            segment = [(name, X, y, w)]
-            last_fit_ds = op["ds"]
-        else:
-            segment.append((name, X, y, w))
         check_replay = (name == "fit") or not is_swc
         if is_swc and wmode == "mixed" and not consistent_w:
             check_replay = False
@@ -1113,11 +1161,11 @@ def _run_estimator(case):
                 if okd:
                     a = mine[fnm]
                     b = np.asarray(pd_)
-                    if a.shape == b.shape and not arr_close(a, b, **DIFF):
-                        nseg = sum(1 for s in segment
-                                   if s[0] == "partial_fit")
-                        t = (f"{cfg_tag}&{name}&partial_fits_since_fit="
-                             f"{'0' if nseg == 0 else '1' if nseg == 1 else '2+'}")
+                    if np.isnan(b).any():
+                        pass  # documented fallback to the label counts
+                    elif a.shape == b.shape and not arr_close(a, b, **DIFF):
+                        t = (f"{cfg_tag}&{name}&earlier_calls_since_last_fit="
+                             f"{'0' if len(segment) == 1 else '1+'}")
                         add(Violation(
                             label, "differs_from_wrapped_estimator_history",
                             t, f"op {idx} {name}: {fnm} "
@@ -1125,7 +1173,7 @@ def _run_estimator(case):
                             f"estimator trained directly on the labeled "
                             f"batches since the last fit "
                             f"{np.round(b, 6).tolist()}"))
-                    if a.shape == b.shape:
+                    if a.shape == b.shape and not np.isnan(b).any():
                         labels.append("direct_model_compared")
 
     # ---- classification of the case ----------------------------------
@@ -1304,7 +1352,15 @@ def _run_pool(case):
         recomputed = (name != "ProbCover") or update or not used_ds
         ok, r = _pool_query(obj, name, X, y, op, update)
         if not ok:
-            add(exc_violation(label, r, trig, f"op {idx} query"))
+            okc, ref = guarded(clone, pristine)
+            ok2, r2 = _pool_query(ref, name, X, y, op, False)
+            if not ok2 and type(r2) is type(r) and not isinstance(
+                    r, CallTimeout):
+                labels.append("rejected_by_fresh_object_too:"
+                              f"{type(r).__name__}")
+            else:
+                add(exc_violation(label, r, trig, f"op {idx} query (a "
+                                  f"fresh clone accepts the same call)"))
             break
         used_ds.append(op["ds"])
         tmp = []
